@@ -29,12 +29,14 @@ PATS = ["x = 1", "_a_ = _a_ + _b_", "_a_ = _b_ + _a_", "___ = ___ + 2", "print(_
         "_a_ = _a_ - _b_", "y = ___", "___ = x", "_a_ = ___\n_a_ = ___", "print(_a_, _b_)", "print(_a_, _a_)",
         "_x_ = 0", "_x_ = ''", "_x_ = False", "range(0, ___)", "_x_ = ___\n_x_ = 0", "_a_ = 1\n_a_ = 2",
         "x = 1.0", "x = True", "_a_ = ___\n_b_ = ___\n_c_ = _a_", "print(__e__, __e__)", "__e__ < __e__",
-        "_a_ = ___\n_f_(_a_)", "_a_ = _b_\n_b_ = _a_", "___ + ___ + ___", "_x_ = [___]", "_x_ = {'a': ___}"]
+        "_a_ = ___\n_f_(_a_)", "_a_ = _b_\n_b_ = _a_", "___ + ___ + ___", "_x_ = [___]", "_x_ = {'a': ___}",
+        "_x_ * _x_", "_x_ + _x_", "(_v_ + 1) + _v_", "_x_ * _y_", "_a_ = _b_ * _b_", "print(_x_ + 1, _x_ + 1)", "_x_ < _x_"]
 STM = ["x = 1", "y = x + 2", "print(x)", "total = total + n", "items.append(x)", "for i in items:\n    total = total + i",
        "if x > 2:\n    y = 1\nelse:\n    y = 2", "while x < 10:\n    x = x + 1", "def f(a, b):\n    return a * b",
        "z = f(x, 3)", "w = items[0]", "q = [x, y, 1]", "s = x < y", "y = 2 * x", "y = x - 2", "n = n + total",
        "print(y, x)", "a = 1", "b = 0", "total = 5", "name = 'Ada'", "for i in range(1, 10):\n    print(i)", "flag = True",
-       "y = 1", "z = f(y)", "x = x < x", "q = [y]", "r = {'a': x}", "x = 1.0", "print(x + 1, x + 1)"]
+       "y = 1", "z = f(y)", "x = x < x", "q = [y]", "r = {'a': x}", "x = 1.0", "print(x + 1, x + 1)",
+       "area = width * height", "t = (a + 1) + b", "sq = side * side", "d = x + x", "print(a + 1, b + 1)"]
 
 
 def _setup():
@@ -184,6 +186,34 @@ def make_mutated(stms, max_len, pool):
     return body
 
 
+MS_PROG = ["a = 0", "b = 0", "print(a)", "print(b)", "done()"]
+MS_PAT = ["_x_ = 0", "print(_x_)", "done()", "_y_ = 0", "print(_y_)", "___"]
+
+
+def make_ordered(max_prog):
+    """Three-statement patterns sharing a placeholder against programs of similar statements: the returned match
+    must embed the pattern statements in order."""
+    def body(ctx):
+        n = ctx.choose(max_prog - 1, 'n') + 2
+        code = "\n".join(MS_PROG[ctx.choose(len(MS_PROG), 's%d' % i)] for i in range(n)) + "\n"
+        pat = "\n".join(MS_PAT[ctx.choose(len(MS_PAT), 'p%d' % i)] for i in range(3))
+        ctx.observe(code + '|' + pat)
+        ctx.set_sample({'program': code, 'pattern': pat})
+        cmds.clear_report()
+        cmds.contextualize_report(code)
+        ctx.step('find_matches')
+        try:
+            ms = find_matches(pat)
+        except Exception as e:
+            ctx.fail({'symptom': 'find_matches raised', 'exception': type(e).__name__}, program=code, pattern=pat)
+            return
+        if ms:
+            ctx.mark_nontrivial(code + '|' + pat)
+        ctx.outcome('matches:%d' % min(len(ms), 3))
+        validate(ctx, code, pat, ms, 'ordered-multi')
+    return body
+
+
 def bounds(tier):
     return {'programs': 'all sequences of <=2 statements over %d statements (second from the first %d)' % (len(STM), 14 if tier == 'quick' else len(STM)),
             'patterns': len(PATS), 'mutations': 'identifier/literal/operator/comparison -> absent, on whole/statement/rename/'
@@ -194,7 +224,9 @@ def phases(tier):
     pool = 14 if tier == 'quick' else len(STM)
     ph = [Phase('alphabet', make_alphabet(STM, 2, pool), setup=_setup, chunk=400, describe='program x independent pattern alphabet'),
           Phase('mutated', make_mutated(cc.STM, 2, 8 if tier == 'quick' else 20), setup=_setup, chunk=400,
-                describe='program x derived patterns mutated by one concrete edit (must not match)')]
+                describe='program x derived patterns mutated by one concrete edit (must not match)'),
+          Phase('ordered-multi', make_ordered(4 if tier == 'quick' else 5), setup=_setup, chunk=400,
+                describe='3-statement patterns with shared placeholders x programs of <=4/5 similar statements')]
     if tier == 'thorough':
         ph.append(Phase('alphabet-3', make_alphabet(STM, 3, 10), setup=_setup, chunk=400,
                         describe='programs of 3 statements (2nd/3rd from the first 10) x pattern alphabet'))
